@@ -59,9 +59,10 @@ pub open spec fn swfe_post(w: Whirlpool, mint_a: crate::token_v2::Mint, mint_b: 
                 && grosses_up(min, in_of(*u0, a_to_b) as int, in_of(u, a_to_b) as int))
     }
 }
-//@ fn instructions/v2/swap.rs swap_with_transfer_fee_extension -> r tags=C16
+//@ fn instructions/v2/swap.rs swap_with_transfer_fee_extension -> r tags=C16,C03
     ensures
-        r matches Ok(u) ==> swfe_post(*whirlpool, token_mint_a.data, token_mint_b.data, *old(swap_tick_sequence), amount, sqrt_price_limit, amount_specified_is_input, a_to_b, timestamp, *adaptive_fee_info, *u),
+        // (C03 as well: for token-extension swaps THIS is the amount the trader is charged resp. receives, which the thresholds and amount bounds of C03 speak about)
+        r matches Ok(u) ==> swfe_post(*whirlpool, token_mint_a.data, token_mint_b.data, *old(swap_tick_sequence), amount, sqrt_price_limit, amount_specified_is_input, a_to_b, timestamp, *adaptive_fee_info, *u), //# C16 C03
         // reachable-state assumption handed on from the swap stub
         r matches Ok(u) ==> fee_fits(*whirlpool, *u, a_to_b),
 //@ end
@@ -454,7 +455,7 @@ pub open spec fn two_hop_v2_post(a0: TwoHopSwapV2<'_>, a1: TwoHopSwapV2<'_>, rem
 
 // ------------------------------------------------------------------ reachability canaries (vacuity guard, see tools/run.py)
 /// reachability canary (must FAIL): the same body with the contract 'never succeeds'
-//@ fn instructions/v2/swap.rs swap_with_transfer_fee_extension -> r as=reach_canary_swap_with_transfer_fee_extension tags=C16
+//@ fn instructions/v2/swap.rs swap_with_transfer_fee_extension -> r as=reach_canary_swap_with_transfer_fee_extension tags=C16,C03
     ensures r is Err,
 //@ end
 /// reachability canary (must FAIL): the same body with the contract 'never succeeds'
